@@ -352,11 +352,29 @@ def edit_constant(parameterized):
         if pobj.constant:
             pobj.constant = False
             updated.append(pobj)
+            # copies made from it meanwhile (see _instantiate_param_obj)
+            _unlocked_constants[id(pobj)] = []
     try:
         yield
     finally:
         for pobj in updated:
             pobj.constant = True
+            for copied in _unlocked_constants.pop(id(pobj), ()):
+                copied.constant = True
+                _unlocked_constants.pop(id(copied), None)
+
+
+# Parameter objects currently unlocked by edit_constant (by id) and the copies
+# made from them (and from those copies) in the meantime, which are locked
+# again together with them
+_unlocked_constants = {}
+
+
+def _copied_while_unlocked(source, new):
+    copies = _unlocked_constants.get(id(source))
+    if copies is not None:
+        copies.append(new)
+        _unlocked_constants[id(new)] = copies
 
 
 @contextmanager
@@ -497,6 +515,8 @@ def _instantiate_param_obj(paramobj, owner=None):
     # Shallow-copy Parameter object without the watchers
     p = copy.copy(paramobj)
     p.owner = owner
+    # (paramobj may be temporarily unlocked by edit_constant)
+    _copied_while_unlocked(paramobj, p)
 
     # Reset watchers since class parameter watcher should not execute
     # on instance parameters
@@ -2117,7 +2137,8 @@ class Parameters:
         for pname, p in objects.items():
             if p.instantiate and pname != "name":
                 params_to_deepcopy[pname] = p
-            elif p.constant and pname != 'name':
+            elif (p.constant or id(p) in _unlocked_constants) and pname != 'name':
+                # (also a constant temporarily unlocked by edit_constant)
                 params_to_ref[pname] = p
 
         for p in params_to_deepcopy.values():
@@ -4582,8 +4603,11 @@ class ParameterizedMetaclass(type):
             inherited = owning_class != mcs
             if inherited:
                 inherited_default = parameter.default
+                inherited_parameter = parameter
                 parameter = copy.copy(parameter)
                 parameter.owner = mcs
+                # (it may be temporarily unlocked by edit_constant)
+                _copied_while_unlocked(inherited_parameter, parameter)
                 type.__setattr__(mcs,attribute_name,parameter)
                 # the inherited Parameter object is no longer the one
                 # governing this class and its subclasses: drop their
